@@ -1,0 +1,409 @@
+//! C14: token payload coding (`Token::encode`/`decode`) and the validation decision
+//! (`IncomingToken::from_header`) with the real AEAD (ring HKDF-SHA256 -> AES-256-GCM).
+//!
+//! Requests (first token `token` removed):
+//!   cfg <key> <retry_lifetime_ns> <validation_lifetime_ns> <none|all|bloom>
+//!   mint  <key> <nonce> <payload>              (pure; used unrecorded by generators to learn the bytes)
+//!   issue <key> <nonce> <payload> <token-hex>  -> ok <len> <plaintext-hex> | err mint-mismatch
+//!   dec   <key> <token-hex>                    -> none | retry <addr> <cid> <secs> <nonce> | val <ip> <secs> <nonce>
+//!   present <token-hex> <remote-addr> <dst-cid> <now_ns>
+//!        -> validated rsc=<cid|none> odcid=<cid> log=<..> dec=<..> | absent .. | invalid-retry ..
+//! <key> = 0..3 (real keys) | n (null AEAD: 16 zero bytes as tag, for exercising the payload decoder)
+//! <payload> = retry <addr> <cid-hex> <issued_ns> | val <ip> <issued_ns>
+//! <addr> = v4/<8 hex>/<port> | v6/<32 hex>/<port>/<flowinfo>/<scope_id>;  <ip> = v4/<8 hex> | v6/<32 hex>
+use std::{
+    net::{IpAddr, Ipv4Addr, Ipv6Addr, SocketAddr, SocketAddrV4, SocketAddrV6},
+    sync::{Arc, Mutex},
+};
+
+#[cfg(all(feature = "aws-lc-rs", not(feature = "ring")))]
+use aws_lc_rs::hkdf;
+use bytes::Bytes;
+#[cfg(feature = "ring")]
+use ring::hkdf;
+
+use super::{hex, unhex, Comp, BAD};
+use crate::{
+    crypto::{self, AeadKey, CryptoError, HandshakeTokenKey, Keys, Session, UnsupportedVersion},
+    packet::{InitialHeader, PacketNumber},
+    shared::ConnectionId,
+    token::{IncomingToken, Token, TokenPayload},
+    transport_parameters::TransportParameters,
+    BloomTokenLog, Duration, NoneTokenLog, ServerConfig, SystemTime, TimeSource, TokenLog,
+    TokenReuseError, MAX_CID_SIZE, UNIX_EPOCH,
+};
+
+const NS: u128 = 1_000_000_000;
+
+struct NullKey;
+impl HandshakeTokenKey for NullKey {
+    fn aead_from_hkdf(&self, _: &[u8]) -> Box<dyn AeadKey> {
+        Box::new(NullAead)
+    }
+}
+struct NullAead;
+impl AeadKey for NullAead {
+    fn seal(&self, data: &mut Vec<u8>, _: &[u8]) -> Result<(), CryptoError> {
+        data.extend_from_slice(&[0u8; 16]);
+        Ok(())
+    }
+    fn open<'a>(&self, data: &'a mut [u8], _: &[u8]) -> Result<&'a mut [u8], CryptoError> {
+        let n = data.len();
+        if n < 16 || data[n - 16..].iter().any(|&b| b != 0) {
+            return Err(CryptoError);
+        }
+        Ok(&mut data[..n - 16])
+    }
+}
+
+/// `from_header` never touches the TLS configuration
+struct NoCrypto;
+impl crypto::ServerConfig for NoCrypto {
+    fn initial_keys(&self, _: u32, _: ConnectionId) -> Result<Keys, UnsupportedVersion> {
+        unreachable!()
+    }
+    fn retry_tag(&self, _: u32, _: ConnectionId, _: &[u8]) -> [u8; 16] {
+        unreachable!()
+    }
+    fn start_session(self: Arc<Self>, _: u32, _: &TransportParameters) -> Box<dyn Session> {
+        unreachable!()
+    }
+}
+
+struct FixedTime(SystemTime);
+impl TimeSource for FixedTime {
+    fn now(&self) -> SystemTime {
+        self.0
+    }
+}
+
+/// Records every consultation and delegates the answer
+struct RecLog {
+    inner: Option<Arc<dyn TokenLog>>, // None = accept everything
+    calls: Mutex<Vec<(u128, SystemTime, Duration, bool)>>,
+}
+impl TokenLog for RecLog {
+    fn check_and_insert(
+        &self,
+        nonce: u128,
+        issued: SystemTime,
+        lifetime: Duration,
+    ) -> Result<(), TokenReuseError> {
+        let r = match &self.inner {
+            None => Ok(()),
+            Some(l) => l.check_and_insert(nonce, issued, lifetime),
+        };
+        self.calls
+            .lock()
+            .unwrap()
+            .push((nonce, issued, lifetime, r.is_ok()));
+        r
+    }
+}
+
+fn mk_log(kind: &str) -> Option<Arc<RecLog>> {
+    let inner: Option<Arc<dyn TokenLog>> = match kind {
+        "all" => None,
+        "none" => Some(Arc::new(NoneTokenLog)),
+        "bloom" => Some(Arc::new(BloomTokenLog::default())),
+        _ => return None,
+    };
+    Some(Arc::new(RecLog {
+        inner,
+        calls: Mutex::new(Vec::new()),
+    }))
+}
+
+pub(super) struct TokenC {
+    keys: Vec<Arc<dyn HandshakeTokenKey>>,
+    null: Arc<dyn HandshakeTokenKey>,
+    server_key: Arc<dyn HandshakeTokenKey>,
+    retry_lt: Duration,
+    val_lt: Duration,
+    log: Arc<RecLog>,
+}
+
+impl TokenC {
+    pub(super) fn new() -> Self {
+        let keys: Vec<Arc<dyn HandshakeTokenKey>> = (0u8..4)
+            .map(|i| {
+                let master = [i.wrapping_mul(37).wrapping_add(11); 64];
+                Arc::new(hkdf::Salt::new(hkdf::HKDF_SHA256, &[]).extract(&master))
+                    as Arc<dyn HandshakeTokenKey>
+            })
+            .collect();
+        Self {
+            server_key: keys[0].clone(),
+            keys,
+            null: Arc::new(NullKey),
+            retry_lt: Duration::from_secs(15),
+            val_lt: Duration::from_secs(2 * 7 * 24 * 60 * 60),
+            log: mk_log("bloom").unwrap(),
+        }
+    }
+
+    fn key(&self, s: &str) -> Option<Arc<dyn HandshakeTokenKey>> {
+        match s {
+            "n" => Some(self.null.clone()),
+            "0" | "1" | "2" | "3" => Some(self.keys[s.parse::<usize>().unwrap()].clone()),
+            _ => None,
+        }
+    }
+}
+
+fn u128p(s: &str) -> Option<u128> {
+    if s.is_empty() || !s.bytes().all(|b| b.is_ascii_digit()) {
+        return None;
+    }
+    s.parse().ok()
+}
+
+fn time(ns: u128) -> Option<SystemTime> {
+    let secs = ns / NS;
+    if secs > i64::MAX as u128 {
+        return None;
+    }
+    UNIX_EPOCH.checked_add(Duration::new(secs as u64, (ns % NS) as u32))
+}
+
+fn dur(ns: u128) -> Option<Duration> {
+    let secs = ns / NS;
+    if secs > u64::MAX as u128 {
+        return None;
+    }
+    Some(Duration::new(secs as u64, (ns % NS) as u32))
+}
+
+fn time_ns(t: SystemTime) -> u128 {
+    t.duration_since(UNIX_EPOCH).map_or(0, |d| d.as_nanos())
+}
+
+fn parse_ip(w: &[&str]) -> Option<IpAddr> {
+    match w {
+        ["v4", h] => {
+            let b = unhex(h)?;
+            let a: [u8; 4] = b.try_into().ok()?;
+            Some(IpAddr::V4(Ipv4Addr::from(a)))
+        }
+        ["v6", h] => {
+            let b = unhex(h)?;
+            let a: [u8; 16] = b.try_into().ok()?;
+            Some(IpAddr::V6(Ipv6Addr::from(a)))
+        }
+        _ => None,
+    }
+}
+
+fn ip(s: &str) -> Option<IpAddr> {
+    let w: Vec<&str> = s.split('/').collect();
+    parse_ip(&w)
+}
+
+fn addr(s: &str) -> Option<SocketAddr> {
+    let w: Vec<&str> = s.split('/').collect();
+    match &w[..] {
+        ["v4", h, p] => {
+            let IpAddr::V4(a) = parse_ip(&["v4", h])? else {
+                return None;
+            };
+            let p = u128p(p)?;
+            Some(SocketAddr::V4(SocketAddrV4::new(a, u16::try_from(p).ok()?)))
+        }
+        ["v6", h, p, f, sc] => {
+            let IpAddr::V6(a) = parse_ip(&["v6", h])? else {
+                return None;
+            };
+            let (p, f, sc) = (u128p(p)?, u128p(f)?, u128p(sc)?);
+            Some(SocketAddr::V6(SocketAddrV6::new(
+                a,
+                u16::try_from(p).ok()?,
+                u32::try_from(f).ok()?,
+                u32::try_from(sc).ok()?,
+            )))
+        }
+        _ => None,
+    }
+}
+
+fn show_ip(ip: IpAddr) -> String {
+    match ip {
+        IpAddr::V4(a) => format!("v4/{}", hex(&a.octets())),
+        IpAddr::V6(a) => format!("v6/{}", hex(&a.octets())),
+    }
+}
+
+fn show_addr(a: SocketAddr) -> String {
+    match a {
+        SocketAddr::V4(a) => format!("v4/{}/{}", hex(&a.ip().octets()), a.port()),
+        SocketAddr::V6(a) => format!(
+            "v6/{}/{}/{}/{}",
+            hex(&a.ip().octets()),
+            a.port(),
+            a.flowinfo(),
+            a.scope_id()
+        ),
+    }
+}
+
+fn cid(s: &str) -> Option<ConnectionId> {
+    let b = unhex(s)?;
+    if b.len() > MAX_CID_SIZE {
+        return None;
+    }
+    Some(ConnectionId::new(&b))
+}
+
+/// returns (payload, words consumed)
+fn payload(w: &[&str]) -> Option<(TokenPayload, usize)> {
+    match w {
+        ["retry", a, c, i, ..] => Some((
+            TokenPayload::Retry {
+                address: addr(a)?,
+                orig_dst_cid: cid(c)?,
+                issued: time(u128p(i)?)?,
+            },
+            4,
+        )),
+        ["val", a, i, ..] => Some((
+            TokenPayload::Validation {
+                ip: ip(a)?,
+                issued: time(u128p(i)?)?,
+            },
+            3,
+        )),
+        _ => None,
+    }
+}
+
+fn show_decoded(t: &Option<Token>) -> String {
+    match t {
+        None => "none".into(),
+        Some(t) => match t.payload {
+            TokenPayload::Retry {
+                address,
+                orig_dst_cid,
+                issued,
+            } => format!(
+                "retry,{},{},{},{}",
+                show_addr(address),
+                hex(&orig_dst_cid),
+                time_ns(issued) / NS,
+                t.verif_nonce()
+            ),
+            TokenPayload::Validation { ip, issued } => format!(
+                "val,{},{},{}",
+                show_ip(ip),
+                time_ns(issued) / NS,
+                t.verif_nonce()
+            ),
+        },
+    }
+}
+
+impl Comp for TokenC {
+    fn exec(&mut self, w: &[&str]) -> String {
+        match w {
+            ["cfg", k, rl, vl, log] => {
+                let (Some(key), Some(rl), Some(vl), Some(log)) = (
+                    self.key(k),
+                    u128p(rl).and_then(dur),
+                    u128p(vl).and_then(dur),
+                    mk_log(log),
+                ) else {
+                    return BAD.into();
+                };
+                self.server_key = key;
+                self.retry_lt = rl;
+                self.val_lt = vl;
+                self.log = log;
+                "ok".into()
+            }
+            ["mint", k, n, rest @ ..] => {
+                let (Some(key), Some(n), Some((p, used))) = (self.key(k), u128p(n), payload(rest))
+                else {
+                    return BAD.into();
+                };
+                if used != rest.len() {
+                    return BAD.into();
+                }
+                format!("ok {}", hex(&Token::verif_with_nonce(p, n).encode(&*key)))
+            }
+            ["issue", k, n, rest @ ..] => {
+                let (Some(key), Some(n), Some((p, used))) = (self.key(k), u128p(n), payload(rest))
+                else {
+                    return BAD.into();
+                };
+                if used + 1 != rest.len() {
+                    return BAD.into();
+                }
+                let Some(claimed) = unhex(rest[used]) else {
+                    return BAD.into();
+                };
+                let tok = Token::verif_with_nonce(p, n).encode(&*key);
+                if tok != claimed {
+                    return "err mint-mismatch".into();
+                }
+                // plaintext as the receiver's AEAD sees it
+                let mut sealed = tok[..tok.len() - 16].to_vec();
+                let aead = key.aead_from_hkdf(&tok[tok.len() - 16..]);
+                match aead.open(&mut sealed, &[]) {
+                    Ok(pt) => format!("ok {} {}", tok.len(), hex(pt)),
+                    Err(_) => "err open".into(),
+                }
+            }
+            ["dec", k, h] => {
+                let (Some(key), Some(b)) = (self.key(k), unhex(h)) else {
+                    return BAD.into();
+                };
+                show_decoded(&Token::verif_decode(&*key, &b)).replace(',', " ")
+            }
+            ["present", h, remote, dcid, now] => {
+                let (Some(tok), Some(remote), Some(dcid), Some(now)) = (
+                    unhex(h),
+                    addr(remote),
+                    cid(dcid),
+                    u128p(now).and_then(time),
+                ) else {
+                    return BAD.into();
+                };
+                let mut cfg = ServerConfig::new(Arc::new(NoCrypto), self.server_key.clone());
+                cfg.retry_token_lifetime = self.retry_lt;
+                cfg.validation_token.lifetime = self.val_lt;
+                cfg.validation_token.log = self.log.clone();
+                cfg.time_source = Arc::new(FixedTime(now));
+                let header = InitialHeader {
+                    dst_cid: dcid,
+                    src_cid: ConnectionId::new(&[]),
+                    token: Bytes::from(tok.clone()),
+                    number: PacketNumber::U8(0),
+                    version: 1,
+                };
+                self.log.calls.lock().unwrap().clear();
+                let decision = match IncomingToken::from_header(&header, &cfg, remote) {
+                    Err(_) => "invalid-retry".to_string(),
+                    Ok(t) => format!(
+                        "{} rsc={} odcid={}",
+                        if t.validated { "validated" } else { "absent" },
+                        t.retry_src_cid.map_or("none".into(), |c| hex(&c)),
+                        hex(&t.orig_dst_cid)
+                    ),
+                };
+                let calls = self.log.calls.lock().unwrap();
+                let log = match &calls[..] {
+                    [] => "-".to_string(),
+                    [(n, i, l, ok)] => format!(
+                        "{},{},{},{}",
+                        n,
+                        time_ns(*i),
+                        l.as_nanos(),
+                        if *ok { "ok" } else { "reuse" }
+                    ),
+                    _ => "many".to_string(),
+                };
+                let dec = show_decoded(&Token::verif_decode(&*self.server_key, &tok));
+                format!("{decision} log={log} dec={dec}")
+            }
+            _ => BAD.into(),
+        }
+    }
+}
